@@ -274,6 +274,19 @@ def check_case(root, spec, pp, cfg, out, armed):
                 out.violation(dict(case, problem='globmatch(REALPATH) accepted an absolute path below a symlink traversed by the `**` of `/**/name`',
                                    name=os.path.join(root, c), pattern_used='/**/' + G.escape(comps[-1])), size=len(c), bucket=('realpath-abs',))
                 return res
+        if ci % 2 == 1 and not cfg.get('follow'):
+            # an exclusion-only list under NEGATEALL: the inclusion the library supplies is a `**`, which obeys the same rule
+            try:
+                with util.watchdog(5):
+                    mn = G.globmatch(c, ['!zz_nothing*'], flags=G.REALPATH | G.NEGATE | G.NEGATEALL | G.DOTGLOB | (fl & (G.GLOBSTARLONG | G.GLOBSTAR)),
+                                     root_dir=root)
+            except util.HarnessBudget:
+                mn = False
+            out.evaluations += 1
+            if mn:
+                out.violation(dict(case, problem='the implicit `**` of NEGATEALL accepted a path below a symlinked directory under REALPATH', name=c,
+                                   pattern_used=['!zz_nothing*']), size=len(c), bucket=('realpath-negateall',))
+                return res
         if m and forced_through_link(comps, lf, segs, full=True, icase=icase):
             cs = dict(case, problem='globmatch(REALPATH) accepted a path below a symlink traversed by `**`', name=c)
             cs['root_given_as'] = ['root_dir', 'dir_fd', 'cwd'][how]
